@@ -41,6 +41,15 @@ import (
 //             Destination shapes: entity [1,1] feature 1, entity [11] feature 1, entity [1] feature 11 (the digits of
 //             entity [1] feature 1, grouped differently) x the four single commands are part of the domain as well:
 //             different addresses are different destinations, whatever a rendering of them looks like.
+//             The FORM of an inbound response and the STATE of the connection are dimensions of the histories
+//             (c13_respform.go): 3 of 5 response datagrams deviate from the form of the repository's test vectors - source
+//             device omitted / never announced / the peer's other announced address, destination device omitted / foreign,
+//             from the request's own destination to its own source (NodeManagement answers a subscription call) instead of
+//             from one fixed feature, own msgCounter equal to the referenced counter or small, ackRequest true / explicit
+//             false, two commands, no specificationVersion, delivered through HandleShipPayloadMessage. In a third of the
+//             cases peer 1 has not announced itself when the history starts (device address unknown; it announces itself at a
+//             drawn point, or never), in another third a peer announces itself again under a CHANGED device address.
+//             After 2 of 5 responses to an unanswered request that very request is issued again at once: it must be written.
 //   notify    sequential histories of 1..260 notifications (API and subscription fan-out) mixed with
 //             other sends; without lookups each of the last 100 must be retrievable unchanged; with
 //             interleaved lookups an exact LRU-with-promotion model separates the known finding D19
@@ -80,10 +89,10 @@ func init() {
 		ID:    "C13",
 		Floor: 90,
 		Rule: "dedupe: case = seeded history of 40-160 sender operations on two connections (request from a 44 key domain: 4 destinations x 4 commands + 8 subscription/binding calls + 4 RequestRemoteData + 2 destinations x 8 lists of 2-3 commands that share first/last commands or prefixes with each other and with the single-command requests (30% of the requests, half of them aimed at a list related to an unanswered request) + 3 regrouped destinations (entity [1,1] feature 1, entity [11] feature 1, entity [1] feature 11: the digits of entity [1] feature 1) x 4 commands (16% of the requests, half of them aimed at a destination whose sibling carries the same command unanswered), unique request, notify/write/reply, " +
-			"response by API, by accepted inbound reply/result or by an inbound reply/result the stack rejects (foreign function, unknown local feature, never announced source feature) referencing an unanswered/answered/unknown/repeated/foreign counter), every third case followed by the bounded-memory probe; " +
+			"response by API, by accepted inbound reply/result or by an inbound reply/result the stack rejects (foreign function, unknown local feature, never announced source feature) referencing an unanswered/answered/unknown/repeated/foreign counter, 3 of 5 response datagrams in a drawn non-canonical FORM {source device: announced/omitted/never announced/the peer's other address; destination device: local/omitted/foreign; sender: one fixed feature / the request's own destination; own msgCounter: running/equal to the reference/small; ackRequest: omitted/true/false; one or two commands; specificationVersion present/omitted; entry point HandleSpineMesssage/HandleShipPayloadMessage}, after 2 of 5 responses to an unanswered request the same request again at once), connection STATE by case index {both peers announced; peer 1 not announced (device address unknown), announcing itself at a drawn operation or never; one peer announcing itself again under a changed device address at a drawn operation}, every third case followed by the bounded-memory probe; " +
 			"notify: case = (number of notifications 1..260 with the boundaries 99,100,101 forced, lookups interleaved or not, share of fan-out notifications, proportion of other outbound datagrams per notification {0,1/4,1,3,6,12} drawn from reply/resultSuccess/resultError/write/read request/subscribe/unsubscribe/bind/unbind/RequestRemoteData, bursts of 99/100/101/150 other datagrams behind a notification, notifications on the second connection); " +
 			"mute: case = 3-6 requests of the 44 key domain + FeatureLocal.SubscribeToRemote/BindToRemote, each issued three times in a drawn interleaving with notify/write calls on a connection without writer, then once and once more on the connection that replaces it (with a writer); non-trivial if at least 9 failing calls and 3 requests written after the reconnect were judged; " +
-			"conc: case = (8-16 goroutines, 25-80 calls each, mix 'all calls' or 'few keys', connection writer yielding the processor before every n-th write, n in {never,1,2,3,5}); after all goroutines have returned every notification of a connection that carried at most 100 of them is looked up sequentially (found, equal to the tap). A case is non-trivial if it judged at least one withheld and one re-enabled request (dedupe), at least one retrieval per retained notification (notify), " +
+			"conc: case = (8-16 goroutines, 25-80 calls each, mix 'all calls' or 'few keys', connection writer yielding the processor before every n-th write, n in {never,1,2,3,5}; inbound results in the drawn forms of dedupe); after all goroutines have returned every notification of a connection that carried at most 100 of them is looked up sequentially (found, equal to the tap). A case is non-trivial if it judged at least one withheld and one re-enabled request (dedupe), at least one retrieval per retained notification (notify), " +
 			"or at least 200 datagrams with at least one pair of non-overlapping calls (conc); distinct = distinct operation-shape sequences (hash), counters and payload values excluded.",
 		Assumptions: []string{
 			"'identical' is read as the statement defines it: same destination address and same command list; source address, classifier and ack flag are not varied within one key",
@@ -93,6 +102,7 @@ func init() {
 			"notifications older than the last 100 of their connection may or may not be retrievable (the statement only promises the last 100); a counter that no notification of the connection carries must never yield a datagram",
 			"in concurrent histories a response is only ever generated for a counter the harness has already seen returned",
 			"conc, retrieval afterwards: a connection that carried at most 100 notifications never filled the cache of 100, so neither a Put nor the promotion by a concurrent lookup (D19) can have evicted one: a notification that is missing once all calls have returned is a violation (notifycache/last-100-missing-after-concurrent-use); connections with more than 100 notifications are not judged there",
+			"a 'response referencing that counter' is ANY datagram delivered on the connection the request was written to that carries that counter as msgCounterReference with classifier reply or result: its addresses (device element present, omitted, unknown, outdated), its own msgCounter, its ackRequest flag, its payload, whether the stack accepts its content, the entry point it is delivered through and whether the peer has announced itself are not named by the statement and therefore never change the reference model",
 			"'same destination' is the same address (device, entity path, feature): entity [1,1] feature 1, entity [11] feature 1, entity [1] feature 11 and entity [1] feature 1 are four destinations; the sender is handed these addresses directly (Sender.Request does not require a destination to be known)",
 			"a request whose send failed (connection without writer: the only send fault the sender can produce) was never written to the peer, so it is not an 'unanswered request': a later identical request must not be withheld because of it, and since it cannot be written either the call must return an error; which counter accompanies the error is not judged. On a connection with a writer an error return stays a violation",
 		},
@@ -125,6 +135,12 @@ func c13Feats() []rig.FS {
 }
 
 func newC13World(c *rig.Ctx, yieldEvery ...int) *c13World {
+	return newC13WorldLate(c, -1, yieldEvery...)
+}
+
+// newC13WorldLate: the peer number late does NOT announce itself (no detailed discovery reply): the stack does not know
+// its device address nor its features until the history announces it.
+func newC13WorldLate(c *rig.Ctx, late int, yieldEvery ...int) *c13World {
 	cw := &c13World{c: c, w: rig.NewWorld(c.Tag())}
 	e := cw.w.AddEntity(model.EntityTypeTypeCEM, []uint{1}, 4*time.Second)
 	cw.cl = e.GetOrAddFeature(model.FeatureTypeTypeMeasurement, model.RoleTypeClient)
@@ -139,7 +155,9 @@ func newC13World(c *rig.Ctx, yieldEvery ...int) *c13World {
 			p = cw.w.AddPeer(i)
 		}
 		p.Ctr = uint64(100000 * (i + 1))
-		p.Announce(c13Feats())
+		if i != late {
+			p.Announce(c13Feats())
+		}
 		cw.peers = append(cw.peers, p)
 	}
 	return cw
@@ -361,6 +379,44 @@ type c13Conn struct {
 	lastKey    string // key of the request that was the previous sender operation ("" = something else)
 	lastResp   model.MsgCounterType
 	nUnique    int
+	reqOf      map[model.MsgCounterType]c13Req // every request written on this connection, as it can be issued again
+	announced  bool                            // the peer has announced itself (its device address is known to the stack)
+	oldAddr    string                          // the device address the peer announced BEFORE it announced itself again under another one
+}
+
+// own: a request the stack wrote on its own (discovery read, NodeManagement subscription, use case read) joins the
+// model like any other request of the connection.
+func (cn *c13Conn) own(d model.DatagramType) {
+	if !c13IsRequest(d) || d.Header.MsgCounter == nil {
+		return
+	}
+	m := *d.Header.MsgCounter
+	k := c13Key(d.Header.AddressDestination, d.Payload.Cmd)
+	cn.unanswered[k] = append(cn.unanswered[k], m)
+	cn.keyOf[m] = k
+	cn.reqOf[m] = c13Req{name: fmt.Sprintf("own#%d", m), cls: c13Cls(d), src: d.Header.AddressSource, dst: d.Header.AddressDestination,
+		ack: d.Header.AckRequest != nil && *d.Header.AckRequest, cmd: d.Payload.Cmd, via: "request"}
+}
+
+// responded: the model's reaction to a response referencing ctr, however it arrived.
+func (cn *c13Conn) responded(ctr model.MsgCounterType) {
+	for k, l := range cn.unanswered {
+		var nl []model.MsgCounterType
+		for _, u := range l {
+			if u != ctr {
+				nl = append(nl, u)
+			}
+		}
+		if len(nl) == 0 {
+			delete(cn.unanswered, k)
+		} else {
+			cn.unanswered[k] = nl
+		}
+	}
+	if _, isReq := cn.keyOf[ctr]; isReq {
+		cn.answered[ctr] = true
+	}
+	cn.lastKey = ""
 }
 
 func (cn *c13Conn) unansweredCount() int {
@@ -372,7 +428,17 @@ func (cn *c13Conn) unansweredCount() int {
 }
 
 func c13Dedupe(c *rig.Ctx) {
-	cw := newC13World(c)
+	// connection state (see c13_respform.go): a third of the cases each
+	//   0 both peers have announced themselves before the history starts and keep their device address
+	//   1 peer 1 has NOT announced itself: its device address is unknown; in 3 of 4 such cases it does so at a drawn
+	//     point of the history
+	//   2 one of the peers announces itself AGAIN under a changed device address at a drawn point of the first half
+	state := (c.Index / 2) % 3
+	late := -1
+	if state == 1 {
+		late = 1
+	}
+	cw := newC13WorldLate(c, late)
 	defer cw.w.Close()
 	r := c.Rand
 	var trace []string
@@ -391,20 +457,15 @@ func c13Dedupe(c *rig.Ctx) {
 	}
 	var conns []*c13Conn
 	for _, p := range cw.peers {
-		cn := &c13Conn{p: p, dom: c13Domain(cw, p), multi: c13Multi(cw, p), shapes: c13Shapes(cw, p), unanswered: map[string][]model.MsgCounterType{}, keyOf: map[model.MsgCounterType]string{}, answered: map[model.MsgCounterType]bool{}, seen: map[model.MsgCounterType]bool{}}
+		cn := &c13Conn{p: p, dom: c13Domain(cw, p), multi: c13Multi(cw, p), shapes: c13Shapes(cw, p), unanswered: map[string][]model.MsgCounterType{}, keyOf: map[model.MsgCounterType]string{}, answered: map[model.MsgCounterType]bool{}, seen: map[model.MsgCounterType]bool{},
+			reqOf: map[model.MsgCounterType]c13Req{}, announced: len(conns) != late}
 		// what the stack sent on its own while connecting is part of the history
 		for _, d := range p.Tap.Take() {
 			cn.absorb(c, d, viol)
-			if c13IsRequest(d) {
-				k := c13Key(d.Header.AddressDestination, d.Payload.Cmd)
-				// the discovery read (counter 1) was answered by the announcement
-				if *d.Header.MsgCounter != 1 {
-					cn.unanswered[k] = append(cn.unanswered[k], *d.Header.MsgCounter)
-				} else {
-					cn.answered[1] = true
-				}
-				cn.keyOf[*d.Header.MsgCounter] = k
-			}
+			cn.own(d)
+		}
+		if cn.announced {
+			cn.responded(1) // the discovery read (counter 1) was answered by the announcement
 		}
 		for _, q := range append(append([]c13Req(nil), cn.multi...), cn.dom[:16]...) {
 			cn.relSig = append(cn.relSig, c13SigOf(q))
@@ -503,6 +564,7 @@ func c13Dedupe(c *rig.Ctx) {
 			fresh++
 			cn.unanswered[key] = append(cn.unanswered[key], ctr)
 			cn.keyOf[ctr] = key
+			cn.reqOf[ctr] = q
 			return true, ctr, true
 		default:
 			viol("request/several-datagrams", "%s %s produced %d datagrams: %s", what, q.name, len(outs), rig.JS(outs))
@@ -512,47 +574,86 @@ func c13Dedupe(c *rig.Ctx) {
 			return true, ctr, false
 		}
 	}
-	respond := func(cn *c13Conn, ctr model.MsgCounterType, mode int, why string) {
-		switch mode {
-		case 0:
+	var formCounts = map[string]int64{}
+	respond := func(cn *c13Conn, ctr model.MsgCounterType, mode int, why string, form c13Form) {
+		if mode == 0 {
 			c13Sender(cn.p).ProcessResponseForMsgCounterReference(&ctr)
 			log("peer%s response(API) for %d (%s)", cn.p.Addr, ctr, why)
-		case 1:
-			cn.p.Send(model.CmdClassifierTypeResult, rig.FA(cn.p.Addr, []uint{1}, 1), cw.cl.Address(), false, &ctr, model.CmdType{ResultData: &model.ResultDataType{ErrorNumber: util.Ptr(model.ErrorNumberType(0))}})
-			log("peer%s inbound result referencing %d (%s)", cn.p.Addr, ctr, why)
-		case 2:
-			cn.p.Send(model.CmdClassifierTypeReply, rig.FA(cn.p.Addr, []uint{1}, 1), cw.cl.Address(), false, &ctr, model.CmdType{MeasurementListData: &model.MeasurementListDataType{}})
-			log("peer%s inbound reply referencing %d (%s)", cn.p.Addr, ctr, why)
-		// responses the stack rejects are responses nevertheless: "a response referencing that counter re-enables sending"
-		case 3:
-			cn.p.Send(model.CmdClassifierTypeReply, rig.FA(cn.p.Addr, []uint{1}, 1), cw.cl.Address(), false, &ctr, model.CmdType{ElectricalConnectionDescriptionListData: &model.ElectricalConnectionDescriptionListDataType{}})
-			log("peer%s inbound reply referencing %d with a function the source feature does not have (%s)", cn.p.Addr, ctr, why)
-		case 4:
-			cn.p.Send(model.CmdClassifierTypeReply, rig.FA(cn.p.Addr, []uint{1}, 1), rig.FA(rig.LocalAddr, []uint{1}, 9), false, &ctr, model.CmdType{MeasurementListData: &model.MeasurementListDataType{}})
-			log("peer%s inbound reply referencing %d to an unknown local feature (%s)", cn.p.Addr, ctr, why)
-		default:
-			cn.p.Send(model.CmdClassifierTypeResult, rig.FA(cn.p.Addr, []uint{7}, 1), cw.cl.Address(), false, &ctr, model.CmdType{ResultData: &model.ResultDataType{ErrorNumber: util.Ptr(model.ErrorNumberType(1))}})
-			log("peer%s inbound result referencing %d from a feature that was never announced (%s)", cn.p.Addr, ctr, why)
+		} else {
+			// the datagram in its canonical form: classifier, source, destination, payload ...
+			cl, src, dst := model.CmdClassifierTypeResult, rig.FA(cn.p.Addr, []uint{1}, 1), cw.cl.Address()
+			var cmd model.CmdType
+			what := ""
+			switch mode {
+			case 1:
+				cmd = model.CmdType{ResultData: &model.ResultDataType{ErrorNumber: util.Ptr(model.ErrorNumberType(0))}}
+				what = "result"
+			case 2:
+				cl, cmd = model.CmdClassifierTypeReply, model.CmdType{MeasurementListData: &model.MeasurementListDataType{}}
+				what = "reply"
+			// responses the stack rejects are responses nevertheless: "a response referencing that counter re-enables sending"
+			case 3:
+				cl, cmd = model.CmdClassifierTypeReply, model.CmdType{ElectricalConnectionDescriptionListData: &model.ElectricalConnectionDescriptionListDataType{}}
+				what = "reply with a function the source feature does not have"
+			case 4:
+				cl, dst, cmd = model.CmdClassifierTypeReply, rig.FA(rig.LocalAddr, []uint{1}, 9), model.CmdType{MeasurementListData: &model.MeasurementListDataType{}}
+				what = "reply to an unknown local feature"
+			default:
+				src, cmd = rig.FA(cn.p.Addr, []uint{7}, 1), model.CmdType{ResultData: &model.ResultDataType{ErrorNumber: util.Ptr(model.ErrorNumberType(1))}}
+				what = "result from a feature that was never announced"
+			}
+			// ... and in the drawn form
+			if q, known := cn.reqOf[ctr]; form.natural && known && mode <= 2 {
+				// what a real peer does: the feature the request went to answers the feature it came from; a call is
+				// answered by a result, a read by a reply that carries its (first) command or by an error result
+				src, dst = q.dst, q.src
+				if q.cls == model.CmdClassifierTypeRead && mode == 2 && len(q.cmd) > 0 {
+					cmd = q.cmd[0]
+					cmd.Filter = nil
+				} else {
+					cl, cmd = model.CmdClassifierTypeResult, model.CmdType{ResultData: &model.ResultDataType{ErrorNumber: util.Ptr(model.ErrorNumberType(mode - 1))}}
+					what = "result"
+				}
+			} else {
+				form.natural = false
+			}
+			if form.srcDev == 3 && cn.oldAddr == "" {
+				form.srcDev = 0 // this peer has announced only one address
+			}
+			other := cn.oldAddr
+			if other != "" && src != nil && src.Device != nil && string(*src.Device) == other {
+				other = cn.p.Addr // a natural response to a request addressed to the old address: the other one is the new address
+			}
+			if prob := c13Deliver(cn.p, r, form, cl, src, dst, ctr, cmd, other); prob != "" {
+				c.Inconclusive("%s", prob)
+			}
+			log("peer%s inbound %s referencing %d (%s) [%s] (peer announced: %v)", cn.p.Addr, what, ctr, why, form, cn.announced)
+			formCounts["responses-delivered-as-datagrams"]++
+			if !form.canonical() {
+				formCounts["responses-in-a-non-canonical-form"]++
+			}
+			if form.natural {
+				formCounts["responses-from-the-request's-destination-to-its-source"]++
+			}
+			formCounts[fmt.Sprintf("responses-by-source-device(0=announced,1=omitted,2=never-announced,3=the-peer's-other-address):%d", form.srcDev)]++
+			formCounts[fmt.Sprintf("responses-by-own-counter(0=running,1=equal-to-reference,2=small):%d", form.own)]++
+			if form.dstDev != 0 {
+				formCounts["responses-with-destination-device-omitted-or-foreign"]++
+			}
+			if form.ship {
+				formCounts["responses-through-HandleShipPayloadMessage"]++
+			}
+			if !cn.announced {
+				formCounts["responses-on-a-connection-whose-peer-has-not-announced-itself"]++
+			}
+			if cn.oldAddr != "" {
+				formCounts["responses-after-the-peer-changed-its-device-address"]++
+			}
+			c.Seen("response_forms", fmt.Sprintf("%d/%s", mode, form.code()))
 		}
 		c.Events(1)
 		c.Seen("response_modes", fmt.Sprintf("%d/%s", mode, why))
-		for k, l := range cn.unanswered {
-			var nl []model.MsgCounterType
-			for _, u := range l {
-				if u != ctr {
-					nl = append(nl, u)
-				}
-			}
-			if len(nl) == 0 {
-				delete(cn.unanswered, k)
-			} else {
-				cn.unanswered[k] = nl
-			}
-		}
-		if _, isReq := cn.keyOf[ctr]; isReq {
-			cn.answered[ctr] = true
-		}
-		cn.lastKey = ""
+		cn.responded(ctr)
 		cn.lastResp = ctr
 		for _, d := range cn.p.Tap.Take() {
 			cn.absorb(c, d, viol)
@@ -561,10 +662,63 @@ func c13Dedupe(c *rig.Ctx) {
 			}
 		}
 	}
+	// announce: the peer announces itself (detailed discovery reply, which references the discovery read, counter 1).
+	// again = under a changed device address. What the stack writes in reaction (its NodeManagement subscription,
+	// its use case read - or nothing, where these are still unanswered) joins the model.
+	announce := func(cn *c13Conn, again bool) {
+		cn.p.Tap.Take()
+		if again {
+			cn.oldAddr = cn.p.Addr
+			cn.p.Addr += "-renamed"
+		}
+		cn.p.Announce(c13Feats())
+		cn.announced = true
+		cn.responded(1)
+		for _, d := range cn.p.Tap.Take() {
+			cn.absorb(c, d, viol)
+			cn.own(d)
+		}
+		c.Events(1)
+		if again {
+			// the destinations of the domain stay what they are (the addresses the requests have been and are sent to);
+			// only the remote feature OBJECTS behind RequestRemoteData are the ones of the new announcement
+			for i := range cn.dom {
+				if cn.dom[i].via == "rrd" {
+					if rf := cn.p.RD.FeatureByAddress(cn.dom[i].dst); rf != nil {
+						cn.dom[i].rf, cn.dom[i].dst = rf, rf.Address()
+					}
+				}
+			}
+			log("peer%s announces itself AGAIN under the device address %s (the stack now knows it as %v)", cn.oldAddr, cn.p.Addr, rig.JS(cn.p.RD.Address()))
+			formCounts["peer-announced-itself-again-under-a-changed-device-address"]++
+		} else {
+			cn.dom = c13Domain(cw, cn.p) // the same requests, plus RequestRemoteData to the features known now
+			log("peer%s announces itself (the stack now knows it as %v)", cn.p.Addr, rig.JS(cn.p.RD.Address()))
+			formCounts["peer-announced-itself-in-the-middle-of-the-history"]++
+		}
+	}
+	announceAt, againAt, againConn := -1, -1, 0
+	switch state {
+	case 1:
+		if r.Intn(4) > 0 {
+			announceAt = r.Intn(nOps)
+		}
+	case 2:
+		againAt, againConn = r.Intn(nOps/2), r.Intn(2)
+	}
+	var reAfterResponse int64
 
 	for op := 0; op < nOps && !c.Failed(); op++ {
+		if op == announceAt {
+			shape = append(shape, "ANN")
+			announce(conns[1], false)
+		}
+		if op == againAt {
+			shape = append(shape, "REN")
+			announce(conns[againConn], true)
+		}
 		cn := conns[0]
-		if r.Intn(3) == 0 {
+		if r.Intn(3) == 0 || (state == 1 && r.Intn(3) == 0) {
 			cn = conns[1]
 		}
 		x := r.Intn(100)
@@ -737,8 +891,29 @@ func c13Dedupe(c *rig.Ctx) {
 			default:
 				ctr, why = model.MsgCounterType(0), "zero"
 			}
-			shape = append(shape, "A"+why[:2])
-			respond(cn, ctr, r.Intn(6), why)
+			mode, form := r.Intn(6), c13DrawForm(r)
+			if mode == 0 {
+				form = c13Form{}
+			}
+			shape = append(shape, "A"+why[:2]+form.code())
+			respond(cn, ctr, mode, why, form)
+			if q, known := cn.reqOf[ctr]; known && why == "unanswered" && r.Intn(5) < 2 && !c.Failed() {
+				// the deciding shape of "a response referencing that counter re-enables sending": the very request that was
+				// answered a moment ago is issued again at once (request() reports it if it is withheld although the model
+				// holds no identical request as unanswered)
+				if q.via == "rrd" {
+					if rf := cn.p.RD.FeatureByAddress(q.dst); rf != nil {
+						q.rf = rf
+					} else {
+						q.via = "request"
+					}
+				}
+				shape = append(shape, "QA")
+				own := len(cn.unanswered[q.key()])
+				if f, _, ok := request(cn, q, "the request answered a moment ago, again:"); ok && f && own == 0 {
+					reAfterResponse++
+				}
+			}
 			if r.Intn(12) == 0 {
 				c13Sender(cn.p).ProcessResponseForMsgCounterReference(nil) // must be harmless
 			}
@@ -787,6 +962,10 @@ func c13Dedupe(c *rig.Ctx) {
 	c.Count("dedupe:sent", fresh)
 	c.Count("dedupe:sent-again-after-response", reenabled)
 	c.Count("dedupe:sent-again-while-unanswered(forgotten)", evictedResend)
+	c.Count("dedupe:sent-again-immediately-after-its-response", reAfterResponse)
+	for k, v := range formCounts {
+		c.Count("dedupe:"+k, v)
+	}
 	c.Count("dedupe:multi-command-requests-sent", multiSent)
 	c.Count("dedupe:multi-command-requests-withheld-as-duplicates", multiWithheld)
 	c.Count("dedupe:multi-command-requests-sent-while-a-request-sharing-destination-and-first-or-last-command-is-unanswered", multiBesideRelated)
@@ -802,7 +981,7 @@ func c13Dedupe(c *rig.Ctx) {
 	if mx > 20 {
 		c.Count("dedupe:cases-with-more-than-20-unanswered", 1)
 	}
-	c.Shape(fmt.Sprintf("dedupe/%v/%s", heavy, c13Hash(shape)))
+	c.Shape(fmt.Sprintf("dedupe/%v/state%d/%s", heavy, state, c13Hash(shape)))
 	c.NonTrivial(withheld > 0 && reenabled > 0)
 	if len(trace) > 40 {
 		trace = trace[:40]
@@ -1328,9 +1507,22 @@ func c13Conc(c *rig.Ctx) {
 						if rr.Intn(2) == 0 {
 							s.ProcessResponseForMsgCounterReference(&x)
 						} else {
+							// in a drawn form (c13_respform.go): source device omitted / never announced, own counter equal to the
+							// reference, through the SHIP reader entry point ...
+							form := c13DrawForm(rr)
+							form.natural = false
+							if form.srcDev == 3 {
+								form.srcDev = 1
+							}
 							inMu[pi].Lock()
-							p.Send(model.CmdClassifierTypeResult, dst, src, false, &x, model.CmdType{ResultData: &model.ResultDataType{ErrorNumber: util.Ptr(model.ErrorNumberType(0))}})
+							prob := c13Deliver(p, rr, form, model.CmdClassifierTypeResult, dst, src, x, model.CmdType{ResultData: &model.ResultDataType{ErrorNumber: util.Ptr(model.ErrorNumberType(0))}}, "")
 							inMu[pi].Unlock()
+							if prob != "" {
+								panic(prob)
+							}
+							if !form.canonical() {
+								cl.kind = "response(non-canonical form)"
+							}
 						}
 					default:
 						sh.mu.Lock()
@@ -1561,7 +1753,7 @@ func c13Conc(c *rig.Ctx) {
 					continue
 				}
 				freshCalls = append(freshCalls, iv{cl.start, cl.end, *os[0].D.Header.MsgCounter, cl.kind})
-			case cl.kind == "response":
+			case strings.HasPrefix(cl.kind, "response"):
 				responses = append(responses, cl)
 			case cl.kind == "lookup":
 				if cl.found != nil {
